@@ -6,7 +6,7 @@ from vlib import strings as S
 
 ID = "C01"
 # look-alikes of prelude names (vlib/defs.py HOSTILE) this check's derives are immune to on the unchanged tree
-HOSTILE_OK = ['From', 'Result', 'Some', 'Ok', 'Iterator', 'Clone', 'AsRef', 'Send', 'PhantomData']
+HOSTILE_OK = ['From', 'Result', 'Some', 'Ok', 'Iterator', 'Clone', 'AsRef', 'Send', 'PhantomData', 'IterGet', 'm_matches', 'm_assert', 'm_fmt']
 PROP_FILE = "Props/C01.v"
 RULE = ("definitions: regression + systematic (kind x {no attr, to_string, 1-3 serialize, both} x variant flag {none,true,false} "
         "x enum flag x serialize_all) + seeded random enums (0-8 variants, disabled / default / default_with / generics / custom "
@@ -94,6 +94,12 @@ def regression():
                    Variant("C", "unit", [], [ser("gb"), tos("GB"), aci(True, explicit=True)]), Variant("D", "unit", [], [tos("Tb"), ser("tB")])]),
         Item("E", [Variant("A", "unit", [], [ser("mb"), tos("MB"), aci(False)]), Variant("B", "unit", [], [ser("kb"), ser("KB")])], metas=[EM("aci")]),
         Item("E", [Variant("Off", "tuple", [Field("String")], [DEFAULT, DISABLED]), Variant("Real", "tuple", [Field("String")], [DEFAULT]), Variant("Red", "unit")]),
+        # a DISABLED (or default) variant owns no spelling: a later enabled variant may use its name
+        Item("E", [Variant("Warn", "unit", [], [DISABLED]), Variant("Warning", "unit", [], [ser("Warn")]), Variant("Error", "unit")]),
+        Item("E", [Variant("Other", "tuple", [Field("String")], [DEFAULT]), Variant("Misc", "unit", [], [ser("Other"), ser("other")]), Variant("Off", "unit", [], [DISABLED, ser("x")]),
+                   Variant("Ex", "tuple", [Field("u8")], [ser("x")])]),
+        Item("E", [Variant("dark_red", "unit", [], [DISABLED]), Variant("DarkRed", "unit"), Variant("Blue", "unit", [], [DISABLED, aci(True, explicit=False)]), Variant("BLUE", "unit")],
+             metas=[EM("sall", "snake_case")]),
     ]
 
 
